@@ -83,6 +83,15 @@ Theorem C13_partial_delivery : forall (mark : string -> option string) (fields :
   = map (partial_val mark (rev order)) fields.
 Proof. intros mark fields order N. now apply partial_delivery_lemma. Qed.
 Print Assumptions C13_partial_delivery.
+(** ... and with failures: a group that failed delivers null and leaves its placeholders, so the object holds the keys
+    of exactly the groups that arrived alive and null at every other deferred key - null propagation from a failure
+    inside a group stops at the object the group belongs to. *)
+Theorem C13_groups_with_failures : forall (mark : string -> option string) (fields : list (string * jt)) (order : list (string * bool)),
+  NoDup (map fst fields) ->
+  fold_left (fun acc p => obj_merge acc (group_payload mark fields p)) order (TObj (initial_obj mark fields))
+  = TObj (map (partial_val mark (rev (map fst (filter snd order)))) fields).
+Proof. exact groups_with_failures_lemma. Qed.
+Print Assumptions C13_groups_with_failures.
 Example C13_one_object_nonvacuous :
   let mark := fun k => if String.eqb k "name" then Some "x" else if String.eqb k "a2" then Some "y" else None in
   let fields := [("a1", TStr "a1"); ("name", TStr "n"); ("a2", TInt 2)] in
